@@ -262,6 +262,8 @@ def interpret(body, cell):
                 continue
             if isinstance(e, dict) and 'f' in e and isinstance(v, tuple) and v[0] == 'pair':
                 v = v[1 + e['f']] if e['f'] < 2 else TOP
+            elif isinstance(e, dict) and 'f' in e and isinstance(v, tuple) and v[0] == 'rec':
+                v = v[1][e['f']] if e['f'] < len(v[1]) else TOP          # a field of a small struct / tuple built from the bounds
             else:
                 return TOP
         return v
@@ -443,6 +445,9 @@ def interpret(body, cell):
                         val = ('bool', False if (a[1] is False or b[1] is False) else (True if (a[1] is True and b[1] is True) else None))
                 else:
                     val = TOP
+            elif k == 'aggr' and not rv.get('closure') and len(rv.get('ops') or []) <= 8 and (rv.get('variant') in (None, '0') or rv.get('tuple') or len(rv.get('fields') or []) == len(rv.get('ops') or [])):
+                # a private struct / tuple that carries the bounds (`Bounds { ub, lb }`): a record of abstract values, read back field by field
+                val = ('rec', tuple(rd(env, o_) for o_ in (rv.get('ops') or [])))
             elif k == 'un':
                 a = rd(env, rv['a'])
                 if rv['op'] == 'Not' and isinstance(a, tuple) and a[0] == 'bool':
